@@ -118,12 +118,9 @@ def run(ctx):
     from contracts import ast_clone
     eqv = ("m_equiv", lambda v: None, lambda nm: None, 260)
     ctx.pyvc(ast_clone.UNITS, dict((u.name, eqv) for u in ast_clone.UNITS))
-    try:
-        from contracts import util_scope
-        scm = ("m_scope", lambda v: None, lambda nm: None, 3000)
-        ctx.pyvc(util_scope.UNITS, dict((u.name, scm) for u in util_scope.UNITS))
-    except ImportError:
-        pass
+    from contracts import util_scope
+    scm = ("m_scope", lambda v: None, lambda nm: None, 3000)
+    ctx.pyvc(util_scope.UNITS, dict((u.name, scm) for u in util_scope.UNITS))
     # create_wrapper is documented for build scripts: called any number of times in one process, each call must equal a
     # fresh command line -- every process-global the run depends on is reset (or never mutated) per run
     from effects.history import history_items
@@ -161,6 +158,11 @@ def run(ctx):
     if rc["violation"]:
         ctx.violation("bounded/m_corpus_rel", {"inputs": rc["inputs"], "observed": rc["violation"]}, True)
     if ctx.tier != "thorough":
+        rs = ctx.monitor("m_scope", "search", 2000, ctx.seed)
+        ctx.bounded.append({"monitor": "m_scope", "inputs_tried": rs["tried"], "violation": rs["violation"],
+                            "kind": "programs over four scopes (root <- mid <- leaf / sibling): views of all scopes against a chain of dictionaries"})
+        if rs["violation"]:
+            ctx.violation("bounded/m_scope", {"inputs": rs["inputs"], "observed": rs["violation"]}, True)
         r0 = ctx.monitor("m_options", "search", 40, ctx.seed)
         ctx.bounded.append({"monitor": "m_options", "inputs_tried": r0["tried"], "violation": r0["violation"],
                             "kind": "two-run relation on a small library: YAML option vs --option, --language, create_wrapper vs "
@@ -174,6 +176,27 @@ def run(ctx):
         if r["violation"]:
             ctx.violation("bounded/m_equiv", {"inputs": r["inputs"], "observed": r["violation"]}, True)
     if ctx.tier == "thorough":
+        # self-validation of the Scope units: every breaking edit of a scratch copy of util.py must be refuted (or leave the
+        # subset), every behaviour-preserving edit must stay proved; a wrong verdict is a checker error, never a verdict
+        from selftest import mutants_scope as _ms
+        from selftest.mutate import run_mutant as _run_mutant
+        wrong = []
+        for m_ in _ms.M:
+            res_ = _run_mutant(m_, util_scope.UNITS, repo=REPO)
+            refuted_ = [r_.unit.name for r_ in res_ if r_.status == "refuted"]
+            undec_ = [r_.unit.name for r_ in res_ if r_.status not in ("ok", "refuted")]
+            good_ = (not refuted_ and not undec_) if m_.expect == "ok" else bool(refuted_) if m_.expect == "refuted" \
+                else bool(refuted_ or undec_)
+            if not good_:
+                wrong.append(m_.mid)
+        ctx.extra["self_validation_scope_mutants"] = {"mutants": len(_ms.M), "wrong_verdicts": wrong}
+        if wrong:
+            ctx.errors.append("self-validation: Scope mutants with a wrong verdict: %s" % wrong)
+        r = ctx.monitor("m_scope", "search", 20000, ctx.seed)
+        ctx.bounded.append({"monitor": "m_scope", "inputs_tried": r["tried"], "violation": r["violation"],
+                            "kind": "programs over four scopes (root <- mid <- leaf / sibling): views of all scopes against a chain of dictionaries"})
+        if r["violation"]:
+            ctx.violation("bounded/m_scope", {"inputs": r["inputs"], "observed": r["violation"]}, True)
         r = ctx.monitor("m_equiv", "search", 400, ctx.seed)
         ctx.bounded.append({"monitor": "m_equiv", "inputs_tried": r["tried"], "violation": r["violation"],
                             "kind": "two-run relations on generated libraries: empty blocks, option/format on a container vs on "
